@@ -831,16 +831,27 @@ def run(chk):
                 or (ltxt[0] in ".$" and len(ltxt) > 1 and r0 in "({")
             if tight_ok:
                 texts.append(ltxt + rtxt)
+            # the same juxtaposition with a dangling operator that makes the operand count add up (`a f(x) |`, `+ a f(x)`)
+            for extra in (texts[0] + " |", texts[0] + " ,", texts[0] + " +", texts[0] + " ==", "+ " + texts[0], "( " + texts[0] + " | ) | .c",
+                          (texts[2] + "|") if len(texts) > 2 else texts[1] + "\n|"):
+                rej.append((extra, None, "juxtaposed-operands"))
+                njux += 1
             for wrap in (False, True):
                 for tx in texts:
                     full = ("[ .c , " + tx + " ] | .[0]") if wrap else tx
                     rej.append((full, None, "juxtaposed-operands"))
                     njux += 1
+    # a prefix function applied to a bracketed call without brackets of its own: has has("a"), del select(.a)
+    for f in PREFIX_OPS:
+        for g in ("has(\"a\")", "select(.a)", "del(.a)", "map(.)", "sub(\"a\"; \"b\")"):
+            for tx in (f + " " + g, f + "\n" + g, ".c | " + f + " " + g, "[" + f + " " + g + "]"):
+                rej.append((tx, None, "juxtaposed-operands"))
+                njux += 1
     chk.extra["juxtaposition_cases"] = njux
     rresp = vlib.yqh_parallel(parse_reqs([r[0] for r in rej]))
     rimpl = [impl_class(r) for r in rresp]
     nrej_bad = 0
-    for (s, ls2, kind), im in zip(rej, rimpl):
+    for rk, ((s, ls2, kind), im) in enumerate(zip(rej, rimpl)):
         chk.count(("reject", s), nontrivial=True, sample={"malformed": s, "outcome": im} if kind == "swap-bracket" else None)
         dist["reject/" + kind] = dist.get("reject/" + kind, 0) + 1
         if not im.startswith("ERR:"):
@@ -848,7 +859,7 @@ def run(chk):
             if nrej_bad <= 3:
                 chk.violation({"kind": "reject", "expr": s, "mutation": kind, "impl": im}, True,
                               "a malformed expression (%s) is accepted instead of rejected" % kind)
-        add_model(s, im)
+        add_model(s, im, thorough or kind != "juxtaposed-operands" or rk % 4 == 0)
     # `a : ]` in a plain collect: the slice default `length` is fabricated as the right operand (finding colon-close)
     cresp = vlib.yqh_parallel(parse_reqs([r[0] for r in colon_close])) if colon_close else []
     for (s_, ls2, kind), r in zip(colon_close, cresp):
